@@ -506,6 +506,8 @@ impl DB {
             }
         }
 
+        #[cfg(raindb_verif)]
+        crate::verif::event(self.options.db_path(), "GetDone", |_| vec![]);
         db_fields_guard.version_set.release_version(current_version);
 
         match get_result {
